@@ -1307,3 +1307,17 @@ Proof.
   intros d' ss' ks' vs' t' sp' A B C D E F. exists d', ss', ks', vs', t'. auto 10.
 Qed.
 Print Assumptions C05_map_insert_absent_partial.
+
+(* non-vacuity (theories/StoredDbOpsAliasExample.v).  The alias tables of the HAND-BUILT example file have capacity 2: below the
+   minimum capacity of C19's invariant and full, an insertion would grow them.  Resizing both to capacity 4 (DbMapData::resize
+   run on the model of storage.rs, every answer replayed on the abstract record map) gives a record map that HOLDS THE SAME
+   database sx_db; for the hash functions sa_hs = (fun _ => 1), sa_hi = (fun _ => 0) and minimum capacity 4 all hypotheses of
+   C05_db_insert_new_alias_preserves_stored_db_partial hold TOGETHER for the new alias sa_new = "k" and the id 2 *)
+From Agdb Require Import StoredDbOpsAliasExample.
+Example C05_db_sample_insert_new_alias :
+  exists sp w h a,
+    stored_db_w (hp sp) 1 sx_db w /\ so_handles h w /\ so_alias_handles a w /\ so_alias_tables_ok sa_hs sa_hi 4 w /\
+    imap_value (aliases sx_db) sa_new = None /\ imap_key (aliases sx_db) 2%Z = None /\
+    so_alias_new_ok sa_hs sa_hi w 2%Z sa_new.
+Proof. exact sa_sample. Qed.
+Print Assumptions C05_db_sample_insert_new_alias.
